@@ -416,7 +416,9 @@ class Worker:
                 z = q_in.get()
                 if z is None:
                     q_in.put(z)  # broadcast to one fellow worker
-                    q_out.put(z)
+                    # Do not pass the sentinel on to `q_out`: fellow workers may
+                    # still be working on earlier inputs. Whoever stops the servlet
+                    # ends the reader of `q_out` after all the workers have exited.
                     break
 
                 uid, x = z
@@ -482,7 +484,6 @@ class Worker:
                 batch = self._get_input_batch()
                 if batch is None:
                     q_in.put(batch)  # broadcast to fellow workers.
-                    q_out.put(batch)
                     break
 
                 # The batch is a list of (ID, value) tuples.
@@ -560,7 +561,6 @@ class Worker:
                         if z is None:
                             buffer.put(z)
                             q_in.put(z)  # broadcast to fellow workers.
-                            q_out.put(z)
                             return
                         uid, x = z
 
